@@ -111,6 +111,13 @@ CHECKS["C13"] = dict(text="TLC enumerates the scenario matrix (all 25 pairs of f
     "for rational orthogonal Q, training-set GRE <= 1, LRE with all training points as neighbours = pointwise GRE, and GRE/GRD/LRE unchanged under the "
     "enumerated source rotations/reflections, rescalings and shifts of either space and target rotations (fixed regularisation).", ref="6/C13",
     tech="TLC-enumerated scenarios replayed in the code; TLC checks metamorphic relations and vanishing/bound laws on the recorded outputs")
+CHECKS["C07"] = dict(text="For the configuration matrix class (CUR / PCov-CUR, both directions) x k x recompute_every in {0,1,2,3} x mixing grid, every greedy "
+    "decision of recorded fits is checked by TLC in fixed point: the public residual matrix is the input with the span of the selected items projected "
+    "out (orthogonality + span membership with a verified coefficient witness), the unexplained targets follow the documented law per direction, and "
+    "the score table equals the leverage of the top-k eigenvectors of R^T R or of the PCovR-modified matrix the specification builds from the residual and "
+    "unexplained y AS OF THE MOST RECENT REFRESH (complete eigenbasis witness verified; pseudo-inverse square root witness verified for the feature "
+    "direction), the choice being a maximiser over unselected items; exposed final residual orthogonal to all selections; duality and mixing=1=CUR as routes.", ref="6/C07",
+    tech="TLC evaluates residual, target and leverage-score laws of the TLA+ specification on every recorded greedy decision (verified witnesses)")
 NA = {}
 def main():
     props = [json.loads(l)["id"] for l in open(os.path.join(HERE, "properties.jsonl"))]
